@@ -261,7 +261,7 @@ impl Model for ForkModel {
         let hist = h | ((who as u128) << l);
         let len = l as usize + 1;
         let case = case_json(self.cap, 0, self.mode, hist, len);
-        guard::enter(&case.to_string());
+        let _guard_scope = guard::scoped(&case.to_string());
         TRANS.fetch_add(1, Relaxed);
         match run_history(self.cap, 0, self.mode, hist, len) {
             Ok((_, pos)) => Some(St { key: (pos[0] as i32 - pos[1] as i32, (pos[0].min(pos[1]) % self.cap) as u8), witness: (hist, len as u8), bad: false }),
@@ -280,7 +280,7 @@ impl Model for ForkModel {
 fn main() {
     let ctx: &'static Ctx = Ctx::leak("C12", "release");
     if let Some(v) = ctx.replay_case() {
-        guard::enter(&v.to_string());
+        let _guard_scope = guard::scoped(&v.to_string());
         if v["sys"] == "fork_soak" {
             ctx.finish_replay(soak(v["cap"].as_u64().unwrap_or(1) as usize, v["steps"].as_u64().unwrap_or(1000) as usize).map(|e| e.1));
         }
@@ -309,7 +309,7 @@ fn main() {
             for l in 0..=cap {
                 evals += 1;
                 let case = json!({"sys":"fork_ctor","cap":cap,"start":start,"len":l});
-                guard::enter(&case.to_string());
+                let _guard_scope = guard::scoped(&case.to_string());
                 if let Some((k, m)) = ctor_case(cap, start, l) {
                     ctx.violation(&k, case, m, Some(&|| ctor_case(cap, start, l).map(|e| e.1)));
                 }
@@ -338,7 +338,7 @@ fn main() {
         let mut st = 0u64;
         for hist in 0..(1u128 << len) {
             if hist & 0xfff == 0 {
-                guard::enter(&case_json(cap, start, mode, hist, len).to_string());
+                let _guard_scope = guard::scoped(&case_json(cap, start, mode, hist, len).to_string());
             }
             match run_history(cap, start, mode, hist, len) {
                 Ok((n, pos)) => {
@@ -391,7 +391,7 @@ fn main() {
     ctx.set("merged_max_depth", json!(res.iter().map(|r| r.1).max()));
     let soak_steps = ctx.tier.pick(50_000, 1_000_000);
     for cap in [1usize, 2, 3, 5, 8, 48, 64, 96] {
-        guard::enter(&json!({"sys":"fork_soak","cap":cap,"steps":soak_steps}).to_string());
+        let _guard_scope = guard::scoped(&json!({"sys":"fork_soak","cap":cap,"steps":soak_steps}).to_string());
         ctx.add_evals(soak_steps as u64);
         ctx.add_transitions(soak_steps as u64);
         if let Some((k, m)) = soak(cap, soak_steps) {
